@@ -24,7 +24,7 @@ theorem elements_Count_hkey (h : hkeyElements (MElemF α)) :
 /-- `firstKey()`: `hkeys[0]` when there is a digest, else 0 = the model's `hkeys.headD 0` -/
 theorem elements_firstKey_hkey (e : HkeyElems α) :
     elements_firstKey (V := V) env (.hkey (cH e)) = some (u64 e.firstKey) := by
-  obtain ⟨hk, el, sz, lv⟩ := e
+  obtain ⟨hk, msl_el, sz, lv⟩ := e
   cases hk with
   | nil => simp [elements_firstKey, hkeyElements_firstKey, cH, u64s, HkeyElems.firstKey, u64]
   | cons a t => simp [elements_firstKey, hkeyElements_firstKey, cH, u64s, HkeyElems.firstKey, goIdx]
@@ -59,7 +59,7 @@ end dispatch
 section sizes
 variable {α : Type} (o : ElemsOps α)
 
-theorem hkey_split_sizes (e : HkeyElems α) (hpre : Gen.hkeyElementsPrefixSize + (dg (rawSizes o e)).sum ≤ e.size) :
+theorem msl_hkey_split_sizes (e : HkeyElems α) (hpre : Gen.hkeyElementsPrefixSize + (dg (rawSizes o e)).sum ≤ e.size) :
     (HkeyElems.split o e).1.size ≤ e.size ∧ (HkeyElems.split o e).2.size ≤ e.size := by
   simp only [HkeyElems.split, dg_rawSizes]
   have hb := splitLoop_bounds ((e.size - Gen.hkeyElementsPrefixSize + 1) / 2) (e.size - Gen.hkeyElementsPrefixSize)
@@ -70,7 +70,7 @@ theorem hkey_split_sizes (e : HkeyElems α) (hpre : Gen.hkeyElementsPrefixSize +
   simp only [Gen.hkeyElementsPrefixSize] at hb hpre ⊢
   omega
 
-theorem hkey_lend_sizes (T : Nat) (l r le re : HkeyElems α)
+theorem msl_hkey_lend_sizes (T : Nat) (l r le re : HkeyElems α)
     (hpre : Gen.hkeyElementsPrefixSize + (dg (rawSizes o l)).sum ≤ l.size) (hr8 : Gen.hkeyElementsPrefixSize ≤ r.size)
     (h : HkeyElems.lendToRight o T l r = .ok (le, re)) :
     le.size ≤ l.size ∧ re.size + 8 ≤ l.size + r.size := by
@@ -89,7 +89,7 @@ theorem hkey_lend_sizes (T : Nat) (l r le re : HkeyElems α)
     simp only [Gen.hkeyElementsPrefixSize] at hb hpre hr8 ⊢
     omega
 
-theorem hkey_borrow_sizes (T : Nat) (l r le re : HkeyElems α)
+theorem msl_hkey_borrow_sizes (T : Nat) (l r le re : HkeyElems α)
     (hpre : Gen.hkeyElementsPrefixSize + (dg (rawSizes o r)).sum ≤ r.size) (hl8 : Gen.hkeyElementsPrefixSize ≤ l.size)
     (h : HkeyElems.borrowFromRight o T l r = .ok (le, re)) :
     le.size + 8 ≤ l.size + r.size ∧ re.size + 8 ≤ l.size + r.size := by
@@ -159,7 +159,7 @@ theorem MapDataSlab_Split_full_eq_model (hE : EnvH (MDataSlab.eops r) T env) (hS
       | .ok (l, rr, c') => some (.dataSlab (cData l x), .dataSlab (cData rr none), none, cData l x, c') := by
   simp only [Gen.mapDataSlabPrefixSize] at hs
   have hsp := hkeyElements_Split_full_eq_model (V := V) (MDataSlab.eops r) T env hE s.elems (by omega) hpre hlen
-  have hb := hkey_split_sizes (MDataSlab.eops r) s.elems hpre
+  have hb := msl_hkey_split_sizes (MDataSlab.eops r) s.elems hpre
   rcases hsplit : HkeyElems.split (MDataSlab.eops r) s.elems with ⟨le, re⟩
   rcases ha : c.alloc s.hdr.id.addr with ⟨sid, c'⟩
   simp only [hsplit] at hsp hb
@@ -196,7 +196,7 @@ theorem MapDataSlab_LendToRight_full_eq_model (hE : EnvH (MDataSlab.eops r) T en
       | .ok (l', r') => some (none, cData l' x, .dataSlab (cData r' y)) := by
   have hm := hkeyElements_LendToRight_full_eq_model (V := V) (MDataSlab.eops r) T env hE l.elems rr.elems hT hT2 hlv hrv
     (by omega) hr8 hpre hlen
-  have hb := hkey_lend_sizes (MDataSlab.eops r) T l.elems rr.elems
+  have hb := msl_hkey_lend_sizes (MDataSlab.eops r) T l.elems rr.elems
   have e18 : UInt32.ofNat 18 = u32 18 := rfl
   simp only [MapDataSlab_LendToRight, MDataSlab.lendToRight, cData, Bool.or_false, Bool.false_eq_true, if_false,
     elements_LendToRight_hkey, hm]
@@ -228,7 +228,7 @@ theorem MapDataSlab_BorrowFromRight_full_eq_model (hE : EnvH (MDataSlab.eops r) 
       | .ok (l', r') => some (none, cData l' x, .dataSlab (cData r' y)) := by
   have hm := hkeyElements_BorrowFromRight_full_eq_model (V := V) (MDataSlab.eops r) T env hE l.elems rr.elems hT hT2
     hlv hrv (by omega) hl8 hpre hlen
-  have hb := hkey_borrow_sizes (MDataSlab.eops r) T l.elems rr.elems
+  have hb := msl_hkey_borrow_sizes (MDataSlab.eops r) T l.elems rr.elems
   have e18 : UInt32.ofNat 18 = u32 18 := rfl
   simp only [MapDataSlab_BorrowFromRight, MDataSlab.borrowFromRight, cData, Bool.or_false, Bool.false_eq_true, if_false,
     elements_BorrowFromRight_hkey, hm]
@@ -266,17 +266,17 @@ end data
 
 /-! ## non-vacuity: the hypotheses hold for a concrete two-element slab (and the model does split it) -/
 
-private def exElemD (k sz : Nat) : MElemF (MElems 0) :=
+private def msl_exElemD (k sz : Nat) : MElemF (MElems 0) :=
   .single { key := ⟨1, k, [k]⟩, val := ⟨1, .val k⟩, size := sz }
 
-private def exDataSlab (id : Nat) (k1 k2 : Nat) : MDataSlab 0 :=
+private def msl_exDataSlab (id : Nat) (k1 k2 : Nat) : MDataSlab 0 :=
   { hdr := ⟨⟨1, id⟩, 18 + 8 + 20 + 20, k1⟩, next := ⟨0, 0⟩,
-    elems := { hkeys := [k1, k2], elems := [exElemD k1 12, exElemD k2 12], size := 8 + 20 + 20, level := 0 },
+    elems := { hkeys := [k1, k2], elems := [msl_exElemD k1 12, msl_exElemD k2 12], size := 8 + 20 + 20, level := 0 },
     root := false, inlined := false }
 
 /-- the hypotheses of `MapDataSlab_Split_full_eq_model`, and the model's result: one element on each side -/
 example :
-    let s := exDataSlab 1 5 9
+    let s := msl_exDataSlab 1 5 9
     s.elems.elems.length < 2^32 ∧ s.elems.size + Gen.mapDataSlabPrefixSize < 2^32 ∧
     Gen.hkeyElementsPrefixSize + (dg (rawSizes (MDataSlab.eops 0) s.elems)).sum ≤ s.elems.size ∧
     s.elems.elems.length ≤ s.elems.hkeys.length ∧
@@ -286,8 +286,8 @@ example :
 
 /-- the hypotheses of the Merge / LendToRight / BorrowFromRight theorems (threshold 1024) -/
 example :
-    let l := exDataSlab 1 5 9
-    let rr := exDataSlab 2 11 15
+    let l := msl_exDataSlab 1 5 9
+    let rr := msl_exDataSlab 2 11 15
     minThr 1024 < 2^32 ∧ Gen.mapDataSlabPrefixSize + Gen.hkeyElementsPrefixSize ≤ minThr 1024 ∧
     l.elems.level < 2^64 ∧ rr.elems.level < 2^64 ∧ l.elems.size + rr.elems.size + 10 < 2^32 ∧
     Gen.hkeyElementsPrefixSize ≤ l.elems.size ∧ Gen.hkeyElementsPrefixSize ≤ rr.elems.size ∧
